@@ -422,7 +422,11 @@ theorem hist_stepC (s s' : St) (hs0 : SafeInv s) (h : HistInv s) (hs : stepC s =
   · -- exitPut
     rename_i i hpc
     split at hs
-    · simp at hs
+    · split at hs
+      · simp only [Option.some.injEq] at hs
+        subst hs
+        exact hist_frame h rfl rfl rfl rfl rfl (by rw [hpc]; rfl) (by rw [hpc]; rfl)
+      · simp at hs
     · simp only [] at hs
       split at hs
       · simp only [Option.some.injEq] at hs
